@@ -37,7 +37,7 @@ MAX_PLANS = 400
 
 
 def generate(rng, tier, idx):
-    sc = GU.gen_history(rng, {'tree': {'p_dist_same_name': 0.35}})
+    sc = GU.gen_history(rng, {'tree': {'p_dist_same_name': 0.35, 'p_timestamp': 0.4}, 'p_sibling_oob': 0.2})
     sc['prop'] = ID
     files = [t['p'] for t in sc['tree'] if t.get('k', 'file') == 'file']
     for r in sc['rounds']:
